@@ -342,6 +342,8 @@ FIXED_FAULTS = [
     ("duplicate-enumeration-in-additions", "F13 DEFINITIONS ::= BEGIN T ::= ENUMERATED { a, ..., b, b } END\n"),
     ("duplicate-identifier-root-and-addition", "F14 DEFINITIONS AUTOMATIC TAGS ::= BEGIN T ::= SET { a INTEGER, b BOOLEAN, ..., a NULL } END\n"),
     ("duplicate-identifier-not-last", "F15 DEFINITIONS ::= BEGIN T ::= SEQUENCE { a INTEGER, b BOOLEAN, a UTF8String, c NULL } END\n"),
+    ("components-of-other-kind", "F18 DEFINITIONS AUTOMATIC TAGS ::= BEGIN Base ::= SEQUENCE { x INTEGER, y BOOLEAN OPTIONAL } Loc ::= SET { COMPONENTS OF Base, z IA5String } END\n"),
+    ("components-of-choice", "F19 DEFINITIONS ::= BEGIN Base ::= CHOICE { x INTEGER, y BOOLEAN } S ::= SEQUENCE { a [0] NULL, COMPONENTS OF Base } END\n"),
     ("recursive-untagged-choice", "F16 DEFINITIONS ::= BEGIN C0 ::= CHOICE { a INTEGER, rec C0, b [8] BOOLEAN } END\n"),
     ("recursive-untagged-choice-indirect", "F17 DEFINITIONS ::= BEGIN C0 ::= CHOICE { a INTEGER, other C1 } C1 ::= CHOICE { b BOOLEAN, back C0, s SEQUENCE OF NULL } END\n"),
     ("inverted-size", "F9 DEFINITIONS ::= BEGIN T ::= IA5String (SIZE(5..2)) END\n"),
